@@ -49,6 +49,17 @@ func TestVerif_C14Sess(t *testing.T) {
 		authed := false
 		directed := ci%4 == 3 // a refused exchange with valid credentials (foreign authorization identity), then MAIL
 		for i := 0; i < 1+r.intn(6); i++ {
+			// go-smtp drops a client after its fourth refused command ("too many errors"); the model of the
+			// session does not go that far: the session ends with the third refusal
+			fails := 0
+			for _, x := range replies {
+				if x == "false" {
+					fails++
+				}
+			}
+			if fails >= 3 {
+				break
+			}
 			k := r.intn(10)
 			if directed && i == 0 {
 				err := cl.Auth(sasl.NewPlainClient("someone-else", "user", "ok"))
